@@ -1113,7 +1113,8 @@ func zzRunC16(r *sim.Run) {
 		return
 	}
 	if heapGrowth > 256<<20 {
-		r.Fail("C16/memory-exhaustion/oversize-frame", "the heap grew by %d MiB while receiving hostile frames", heapGrowth>>20)
+		// (a threshold on the Go heap of this process: outside the replayed event log)
+		r.FailUnhashed("C16/memory-exhaustion/oversize-frame", "the heap grew by %d MiB while receiving hostile frames", heapGrowth>>20)
 	}
 	// lossless: what arrived equals what was sent, in order per lane
 	if !r.Failed() {
